@@ -213,6 +213,7 @@ func checkC17(p *Prog, r *Report) {
 	ruleC17JS(p, a, r)
 	ruleC17URL(p, a, r)
 	ruleC17Strip(p, a, r)
+	ruleC17TagNames(p, a, r)
 
 	// ---- safe
 	r.Begin("R-C17-SAFE", "safe returns its input itself, unchanged, with a nil error", 1)
@@ -537,10 +538,48 @@ func ruleC17JS(p *Prog, a *Anchors, r *Report) {
 				arg := c.Common().Args[1]
 				sp, ok := arg.(*ssa.Call)
 				if ok && sp.Common().StaticCallee() != nil && p.extName(sp.Common().StaticCallee()) == "fmt.Sprintf" {
+					if fs, isC := constString(sp.Common().Args[0]); isC && (fs == `\u%04X\u%04X` || fs == `\u%04x\u%04x`) {
+						// a surrogate pair: both halves are the results of utf16.EncodeRune(<the rune just read>)
+						nFmt++
+						vals := varargValues(sp.Common().Args[1])
+						pairOK := len(vals) == 2
+						for i, v := range vals {
+							ex, isEx := v.(*ssa.Extract)
+							if !isEx || ex.Index != i {
+								pairOK = false
+								continue
+							}
+							ec, isCall := ex.Tuple.(*ssa.Call)
+							if !isCall || ec.Common().StaticCallee() == nil || p.extName(ec.Common().StaticCallee()) != "unicode/utf16.EncodeRune" || ec.Common().Args[0] != rawRune {
+								pairOK = false
+							}
+						}
+						if pairOK {
+							r.OK("escapejs:escaped:pair", p.InstrPos(in), "writes the UTF-16 surrogate pair of the rune just read, four digits each")
+						} else {
+							r.Bad("escapejs:escaped:pair", p.InstrPos(in), "a two-escape format is written with arguments that are not utf16.EncodeRune(<the rune just read>)")
+						}
+						continue
+					}
 					if fs, isC := constString(sp.Common().Args[0]); isC && (fs == `\u%04X` || fs == `\u%04x`) {
 						nFmt++
 						vals := varargValues(sp.Common().Args[1])
 						if len(vals) == 1 && vals[0] == rawRune {
+							// %04X is a minimum width: the rune must fit four hex digits here
+							if def, isDef := rawRune.(ssa.Instruction); isDef {
+								got := runesReaching(rawRune, def.Block())[b]
+								var maxR int64 = -1
+								for _, iv := range got {
+									if iv.hi > maxR {
+										maxR = iv.hi
+									}
+								}
+								if maxR > 0xFFFF {
+									r.Bad("escapejs:escaped:width", p.InstrPos(in), "the rune written with %q can be as large as U+%X here: above U+FFFF the escape gets five or six digits, which JavaScript reads as a four-digit escape followed by text", fs, maxR)
+								} else {
+									r.OK("escapejs:escaped:width", p.InstrPos(in), "the rune is at most U+%X here: exactly four digits", maxR)
+								}
+							}
 							r.OK("escapejs:escaped", p.InstrPos(in), "writes Sprintf(%q, <the rune just read>)", fs)
 						} else if len(vals) == 1 {
 							r.Bad("escapejs:escaped:"+p.VN(vals[0]), p.InstrPos(in), "writes the escape of %s, not of the character just read: the output does not decode to the input's characters", p.VN(vals[0]))
@@ -558,6 +597,43 @@ func ruleC17JS(p *Prog, a *Anchors, r *Report) {
 				r.Bad("escapejs:escaped", p.InstrPos(in), "escapejs writes %s, which is neither a raw whitelisted rune nor a \\uXXXX escape", p.VN(arg))
 			case "(*bytes.Buffer).WriteByte", "(*bytes.Buffer).Write":
 				r.Bad("escapejs:other", p.InstrPos(in), "escapejs writes raw bytes through %s", name)
+			}
+		}
+	}
+	// nothing is dropped: between decoding a rune and going round the loop again something is written
+	for _, b := range f.Blocks {
+		for i, in := range b.Instrs {
+			c, ok := in.(*ssa.Call)
+			if !ok || c.Common().StaticCallee() == nil || !strings.HasPrefix(p.extName(c.Common().StaticCallee()), "unicode/utf8.DecodeRune") {
+				continue
+			}
+			var hdr *ssa.BasicBlock
+			for _, h := range f.Blocks {
+				if !h.Dominates(b) {
+					continue
+				}
+				for _, pr := range h.Preds {
+					if h.Dominates(pr) && (hdr == nil || hdr.Dominates(h)) {
+						hdr = h
+					}
+				}
+			}
+			if hdr == nil {
+				continue
+			}
+			first := hdr.Instrs[0]
+			isWrite := func(x ssa.Instruction) bool {
+				wc, ok := x.(*ssa.Call)
+				if !ok || wc.Common().StaticCallee() == nil {
+					return false
+				}
+				n := p.extName(wc.Common().StaticCallee())
+				return strings.HasPrefix(n, "(*bytes.Buffer).Write") || strings.HasPrefix(n, "(*strings.Builder).Write")
+			}
+			if MustPassFrom(b, i+1, first, isWrite) {
+				r.OK("escapejs:nothing-dropped", p.InstrPos(in), "every decoded rune leads to a write before the next one is read")
+			} else {
+				r.Bad("escapejs:nothing-dropped", p.InstrPos(in), "a decoded rune can be skipped without anything being written (e.g. U+FFFD, which is also what a genuine replacement character decodes to): the output does not decode to the input's characters")
 			}
 		}
 	}
@@ -796,5 +872,69 @@ func ruleC17Strip(p *Prog, a *Anchors, r *Report) {
 		r.Bad("striptags:pattern", p.InstrPos(c), "pattern %q: striptags(%q) = %q still contains a complete tag", pat, witness, witnessOut)
 	} else {
 		r.OK("striptags:pattern", p.InstrPos(c), "pattern %q leaves no complete tag on any of %d strings up to length 7", pat, n)
+	}
+}
+
+// ruleC17TagNames: removetags validates each requested tag name with a constant pattern before building a regular
+// expression from it. The pattern must accept HTML tag names (a letter followed by letters/digits) and nothing that
+// would change the meaning of the expression built from it. Decided on all strings up to length 3 over {a, Z, 1, -, <, |, .}.
+func ruleC17TagNames(p *Prog, a *Anchors, r *Report) {
+	r.Begin("R-C17-TAGNAME", "removetags: the name-validation pattern accepts exactly letter(letter|digit)* on all strings up to length 3 over {a,Z,1,-,<,|,.} — every ordinary tag name can be removed and no regexp metacharacter gets into the expression built from the name", 1)
+	f := a.FilterFuncs["removetags"]
+	if f == nil {
+		r.Unk("registry:removetags", "-", "anchor unresolved")
+		return
+	}
+	pat := ""
+	for _, b := range f.Blocks {
+		for _, in := range b.Instrs {
+			c, ok := in.(*ssa.Call)
+			if !ok || c.Common().StaticCallee() == nil || p.extName(c.Common().StaticCallee()) != "(*regexp.Regexp).MatchString" {
+				continue
+			}
+			if u, ok := c.Common().Args[0].(*ssa.UnOp); ok {
+				if g, ok := u.X.(*ssa.Global); ok {
+					if ic := globalInitCall(p, g); ic != nil {
+						pat, _ = constString(ic.Common().Args[0])
+					}
+				}
+			}
+		}
+	}
+	if pat == "" {
+		r.Unk("removetags:pattern", p.Pos(f.Pos()), "no constant validation pattern found")
+		return
+	}
+	re, err := regexp.Compile(pat)
+	if err != nil {
+		r.Bad("removetags:pattern", p.Pos(f.Pos()), "pattern %q does not compile", pat)
+		return
+	}
+	ref := regexp.MustCompile(`^[a-zA-Z][a-zA-Z0-9]*$`)
+	alphabet := []string{"a", "Z", "1", "-", "<", "|", "."}
+	var bad string
+	n := 0
+	var gen func(prefix string, left int)
+	gen = func(prefix string, left int) {
+		if bad != "" {
+			return
+		}
+		n++
+		if re.MatchString(prefix) != ref.MatchString(prefix) {
+			bad = prefix
+			return
+		}
+		if left == 0 {
+			return
+		}
+		for _, ch := range alphabet {
+			gen(prefix+ch, left-1)
+		}
+	}
+	gen("", 3)
+	if bad != "" {
+		r.Bad("removetags:pattern", p.Pos(f.Pos()), "pattern %q says %v for the tag name %q, a tag name is letter(letter|digit)*: %s", pat, re.MatchString(bad), bad, map[bool]string{true: "such a name puts regexp syntax into the expression built from it", false: "tags with that name can never be removed"}[re.MatchString(bad)])
+	} else {
+		r.OK("removetags:pattern", p.Pos(f.Pos()), "pattern %q agrees with letter(letter|digit)* on %d strings", pat, n)
 	}
 }
